@@ -8,6 +8,7 @@ import (
 	"io"
 	"os"
 	"strings"
+	"sync"
 	"testing"
 
 	diskfs "github.com/diskfs/go-diskfs"
@@ -55,6 +56,61 @@ func c12Sizes(t string) []int64 {
 	return []int64{1 << 20, 8 << 20, 32 << 20}
 }
 
+var (
+	c12BoundsMu sync.Mutex
+	c12Bounds   = map[string][2]int64{}
+)
+
+// c12FATBounds returns the smallest and (for fat12/fat16) largest sector count at which Create accepts the
+// FAT type, found once per process by bisection on a sparse device (0, 0 for other types).
+func c12FATBounds(t string) (int64, int64) {
+	if t != "fat12" && t != "fat16" && t != "fat32" {
+		return 0, 0
+	}
+	c12BoundsMu.Lock()
+	defer c12BoundsMu.Unlock()
+	if b, ok := c12Bounds[t]; ok {
+		return b[0], b[1]
+	}
+	accept := func(sectors int64) bool {
+		ok := false
+		hx.Safe(func() {
+			d := dev.New(sectors * 512)
+			_, err := mk.CreateFAT(t, d, sectors*512, 0, 512, "B", true)
+			ok = err == nil
+		})
+		return ok
+	}
+	anchor := map[string]int64{"fat12": 2880, "fat16": 16384, "fat32": 133120}[t] // sizes every type accepts
+	var lo, hi int64
+	if accept(anchor) {
+		a, b := int64(8), anchor // a refused, b accepted
+		for b-a > 1 {
+			if m := (a + b) / 2; accept(m) {
+				b = m
+			} else {
+				a = m
+			}
+		}
+		lo = b
+		if t != "fat32" {
+			a, b = anchor, int64(16<<21) // a accepted, b (8 GiB) refused
+			if !accept(b) {
+				for b-a > 1 {
+					if m := (a + b) / 2; accept(m) {
+						a = m
+					} else {
+						b = m
+					}
+				}
+				hi = a
+			}
+		}
+	}
+	c12Bounds[t] = [2]int64{lo, hi}
+	return lo, hi
+}
+
 func genC12(t *rapid.T) any {
 	c := c12Case{Seed: rapid.Uint32().Draw(t, "seed")}
 	c.T = rapid.SampledFrom([]string{"fat12", "fat16", "fat32", "ext4", "iso9660", "squashfs", "blank"}).Draw(t, "type")
@@ -62,6 +118,20 @@ func genC12(t *rapid.T) any {
 		// sizes are whole MiB here, outside that finding's region
 	}
 	c.Size = rapid.SampledFrom(c12Sizes(c.T)).Draw(t, "size")
+	if lo, hi := c12FATBounds(c.T); lo > 0 {
+		// the FAT types are told apart by their cluster count, so the sizes at which Create starts and
+		// stops accepting a type are where recognition is most likely to disagree with creation
+		switch rapid.IntRange(0, 3).Draw(t, "sizeMode") {
+		case 0:
+			c.Size = (lo + int64(rapid.IntRange(0, 12).Draw(t, "aboveMin"))) * 512
+		case 1:
+			if hi > 0 {
+				c.Size = (hi - int64(rapid.IntRange(0, 12).Draw(t, "belowMax"))) * 512
+			}
+		case 2:
+			c.Size = rapid.Int64Range(lo, lo*6).Draw(t, "sectors") * 512
+		}
+	}
 	c.Place = rapid.SampledFrom([]string{"whole", "gpt", "mbr"}).Draw(t, "place")
 	c.Part = rapid.IntRange(1, 3).Draw(t, "part")
 	switch rapid.IntRange(0, 1).Draw(t, "staleMode") {
